@@ -18,15 +18,18 @@ MODULE = 'PyTough.Props.C04'
 TARGETS = ['PyTough.Props.C04', 'drv_c04']
 THEOREMS = ['Props.C04.' + t for t in [
     'fromgeo_blocks_eq_namelist', 'fromgeo_connections_eq_namelist',
+    'fromgeo_succeeds', 'grid_block_data', 'grid_connection_origin', 'layer_stack_adjacent',
     'block_volume_formula', 'column_volume_telescopes', 'total_volume', 'polygon_area_is_shoelace',
     'vertical_connection_geometry', 'vertical_connection_atmosphere',
+    'grid_block_volume', 'grid_vertical_distances_add_up',
     'untilted_tilt_vector', 'gravity_cosine_vertical', 'gravity_cosine_horizontal', 'gravity_cosine_truncated',
     'horizontal_connection_geometry', 'perpendicular_is_shortest']]
-LEVEL_TEXT = ('Proof over exact arithmetic: Lean theorems about an executable model of fromgeo and the geometry helpers '
-              '(block list and connection list equal the announced name lists, in order and orientation, for every geometry, '
-              'naming convention, atmosphere type, block order and injective block map; volume formula and telescoping to '
-              'area x depth; vertical/atmosphere connection distances; gravity cosines; horizontal area = edge x lower height, '
-              'distances perpendicular and minimal), no sorry; tied to /repo by a correspondence run of the real fromgeo against '
+LEVEL_TEXT = ('Proof over exact arithmetic: 20 Lean theorems about an executable model of fromgeo and the geometry helpers '
+              '(fromgeo returns on every well-formed geometry; block list and connection list equal the announced name lists, in order '
+              'and orientation, for every geometry, naming convention, atmosphere type, block order and injective block map; every block '
+              'carries block_volume/block_centre of its layer and column and every connection comes from one of the two loop bodies; volume '
+              'formula and telescoping to area x depth; vertical/atmosphere connection distances; gravity cosines; horizontal area = edge x '
+              'lower height, distances perpendicular and minimal), no sorry; hypotheses are decidable predicates evaluated on every explored case; tied to /repo by a correspondence run of the real fromgeo against '
               'the compiled model on rectangular, shipped-irregular, refined and rotated geometries, plus an independent Fraction oracle.')
 LEVEL_NOTE = ('Trusted: Lean kernel (+propext, Classical.choice, Quot.sound); the hand model (tied by the correspondence); IEEE rounding is '
               'outside the model (numbers compared to 1e-9 relative, cosines 1e-12 absolute); square roots are symbolic (squares compared); '
